@@ -92,10 +92,10 @@ func symxEvent(us ...symxUpdate) []byte {
 // symxView is everything a user can list on a node, in a canonical, key-indexed form
 // ("" = not visible).
 type symxView struct {
-	sess  [2]string    // session id -> client id
-	peer  [2]uint64    // session id -> hosting peer
-	subs  [2][2]int32  // (session, pattern) -> qos+1 ; 0 = absent
-	subsN int          // number of listed subscriptions (detects duplicates)
+	sess  [2]string   // session id -> client id
+	peer  [2]uint64   // session id -> hosting peer
+	subs  [2][2]int32 // (session, pattern) -> qos+1 ; 0 = absent
+	subsN int         // number of listed subscriptions (detects duplicates)
 	sessN int
 	ret   [2]string // topic -> payload
 	retN  int       // number of retained messages under m/#
